@@ -304,6 +304,10 @@ def evaluate(inp, oracle='wellformed'):
             return bad('history:second-sample-differs-from-fresh-sampler', None, {'config': inp['config']})
         return Verdict()
     sampler, mol, err = run_path(c, inp['target'], inp['path'], ch)
+    ch2 = own.Chooser()
+    s2, m2, e2 = run_path(c, inp['target'], inp['path'], ch2)
+    if (mol is None) != (m2 is None) or (mol is not None and dump(mol) != dump(m2)):
+        return bad('replay-not-deterministic', None, {'config': inp['config'], 'path': inp['path']})
     return judge(c, inp, sampler, mol, err, ch, oracle)
 
 
@@ -332,8 +336,18 @@ def judge(c, inp, sampler, mol, err, ch, oracle):
     return Verdict(nontrivial=nontrivial, outcome=nx.weisfeiler_lehman_graph_hash(mol, node_attr='element' if c['all_atom'] else 'atomname'))
 
 
+_POISONED = []      # set once an execution in this worker process was not reproducible
+
+
 def run_task(task, R, oracle='wellformed'):
     c = CONFIGS[task['config']]
+    if _POISONED:
+        # something survived an earlier execution in this process (that is what made it non-reproducible); every
+        # further call of the library would run on that state, get slower and prove nothing new
+        R.record({'kind': 'sampler', 'config': task['config'], 'target': task.get('target'), 'path': []},
+                 bad('replay-not-deterministic', None, {'config': task['config'], 'first_seen_in': _POISONED[0]}))
+        R.cap('task skipped: an earlier execution in this worker process was not reproducible')
+        return
     if task['kind'] == 'conformance':
         return run_conformance(task, R, c)
     if task['kind'] == 'history':
@@ -360,6 +374,7 @@ def run_task(task, R, oracle='wellformed'):
                 # executions are not a function of the schedule (something survives from one execution to the next):
                 # nothing explored after this point would be believable, stop this tree
                 R.cap('config %s target %s: exploration stopped at the first non-reproducible execution' % (task['config'], task['target']))
+                _POISONED.append(task['config'])
                 stats = None
                 break
         v = judge(c, inp, sampler, mol, err, ch, oracle)
@@ -406,6 +421,7 @@ def run_history(task, R, c):
         R.record({'kind': 'sampler', 'config': task['config'], 'target': task['target'], 'path': []},
                  bad('replay-not-deterministic', None, {'config': task['config'], 'path': []}))
         R.cap('history exploration of %s skipped: executions are not reproducible' % task['config'])
+        _POISONED.append(task['config'])
         return
 
     def run(prefix):
